@@ -2345,6 +2345,21 @@ class WBEMConnection:  # pylint: disable=too-many-instance-attributes
 
         # #  Original code return tup_tree
 
+        def xml_cimvalue(value, cimtype_):
+            """
+            Convert the unpacked content of a RETURNVALUE or PARAMVALUE element
+            into a CIM data type. Boolean values arrive as the text of VALUE
+            elements ('TRUE', 'FALSE'), which must not be converted using
+            Python truth testing.
+            """
+            if cimtype_ == 'boolean':
+                if isinstance(value, list):
+                    return [tp.unpack_boolean(v) if isinstance(v, str) else v
+                            for v in value]
+                if isinstance(value, str):
+                    return tp.unpack_boolean(value)
+            return cimvalue(value, cimtype_)
+
         # Convert optional RETURNVALUE into a Python object
         returnvalue = None
 
@@ -2353,7 +2368,7 @@ class WBEMConnection:  # pylint: disable=too-many-instance-attributes
             # PARAMTYPE is optional (it was added in DSP0201 2.2)
             paramtype = tup_tree[0][1].get('PARAMTYPE', None)
             try:
-                returnvalue = cimvalue(tup_tree[0][2], paramtype)
+                returnvalue = xml_cimvalue(tup_tree[0][2], paramtype)
             except (TypeError, ValueError) as exc:
                 new_exc = CIMXMLParseError(
                     _format("Invalid return value for type {0!A} in "
@@ -2381,7 +2396,7 @@ class WBEMConnection:  # pylint: disable=too-many-instance-attributes
                 output_params[p[0]] = p[2]
             else:
                 try:
-                    output_params[p[0]] = cimvalue(p[2], p[1])
+                    output_params[p[0]] = xml_cimvalue(p[2], p[1])
                 except (TypeError, ValueError) as exc:
                     new_exc = CIMXMLParseError(
                         _format("Invalid value for type {0!A} in PARAMVALUE "
